@@ -22,7 +22,7 @@ DEFS = {
             "thorough": [{"name": "sampled multi-crash plans", "n": 400000, "wall": 360, "opts": {"mode": "sample", "chunk": 50}},
                          {"name": "per-scenario sweep of every seam event", "n": 3000, "wall": 200, "opts": {"mode": "sweep", "chunk": 1}},
                          {"name": "per-scenario sweep of every seam event and every source line", "n": 400, "wall": 330,
-                          "opts": {"mode": "sweep", "sweep_lines": True, "chunk": 1}}],
+                          "opts": {"mode": "sweep", "sweep_lines": True, "chunk": 1, "plan_timeout": 900}}],
         },
         "rule": ("plan = seeded (grid, rep_max, scripted skips/durations/stop rule, clock jumps, file format/folder/buffer knobs) + 0-3 incarnations each "
                  "ended by one injected fault (hard kill, soft interrupt, OSError, torn write) at a seam event or source-line event, + a fault-free "
